@@ -181,8 +181,13 @@ class Exec:
         self.no_merge = []       # regexes of callee names whose return paths are kept separate
 
     # ------------------------------------------------------------------ helpers
+    _fresh_global = [0]
+
     def fresh(self, prefix, sort=None):
-        self.fresh_n += 1
+        # one counter for all executors of the process: constraints of two executors are routinely conjoined in one query, and
+        # two unrelated fresh variables must never share a name
+        Exec._fresh_global[0] += 1
+        self.fresh_n = Exec._fresh_global[0]
         return z3.Const('%s!%d' % (prefix, self.fresh_n), sort if sort is not None else z3.IntSort())
 
     def new_frame(self):
@@ -385,6 +390,10 @@ class Exec:
             # NonZero<T> is Struct([value]); MIN of an unsigned type is 1 (of a signed type: T::MIN)
             lo, hi = INTTY[m.group(1).lower()]
             return Struct([z3.IntVal(hi if m.group(2) == 'MAX' else (1 if lo == 0 else lo))])
+        m = re.fullmatch(r'(?:(?:core|std)::time::)?Duration::(ZERO|MAX|SECOND|MILLISECOND|MICROSECOND|NANOSECOND)', s)
+        if m and not any(re.search(rx, s) for rx, _v in self.const_hooks):
+            # std::time::Duration as exact integer nanoseconds
+            return Struct([z3.IntVal({'ZERO': 0, 'MAX': (2 ** 64 - 1) * 10 ** 9 + 999_999_999, 'SECOND': 10 ** 9, 'MILLISECOND': 10 ** 6, 'MICROSECOND': 1000, 'NANOSECOND': 1}[m.group(1)])])
         if s.startswith('"') or s.startswith('b"'):
             return Opaque('str:' + s[:60])
         if s.startswith("'"):
@@ -540,10 +549,15 @@ class Exec:
         if op == 'Mul' and isinstance(a, FMono) and isinstance(b, FMono):
             return FMono(a.num + b.num, a.den * b.den, a.k + b.k + 1, min(a.p, b.p))
         if op in ('Add', 'Sub', 'Mul', 'Div'):
+            if op == 'Div' and not isinstance(b, FConst):
+                # division by a symbolic value: the exact real quotient within one rounding (non-linear real arithmetic). A zero divisor
+                # (result +-inf or NaN in IEEE arithmetic) leaves the quotient unconstrained: every outcome of a later comparison is
+                # explored, and whatever the solver proposes there is decided by the native replay
+                xa, xb = self.to_lin(a), self.to_lin(b)
+                self.symbolic_float_divisions = getattr(self, 'symbolic_float_divisions', 0) + 1
+                return FLin(self.rounded(xa / xb, p))
             if op in ('Mul', 'Div') and not (isinstance(a, FConst) or isinstance(b, FConst)):
                 raise EngineError('float %s of two symbolic non-monomial values' % op)
-            if op == 'Div' and not isinstance(b, FConst):
-                raise EngineError('float division by a symbolic value')
             xa, xb = self.to_lin(a), self.to_lin(b)
             if op == 'Add':
                 return FLin(self.rounded(xa + xb, p))
@@ -733,6 +747,9 @@ class Exec:
         ty = ty.strip()
         if ty in PRIM_SIZE:
             return PRIM_SIZE[ty]
+        ma = re.fullmatch(r'\[(.+); (\d+)(?:_usize)?\]', ty)
+        if ma:
+            return self.size_of(ma.group(1)) * int(ma.group(2))
         b = base_type_name(ty)
         if b in PRIM_SIZE:
             return PRIM_SIZE[b]
